@@ -37,7 +37,7 @@ def floors(tier):
     for c in ("eq:identical", "eq:perturbed-name", "eq:perturbed-label", "eq:perturbed-time", "eq:perturbed-count", "eq:other-type",
               "eq:foreign", "eq:symmetry-pair", "validate:corrupt-span", "validate:corrupt-order", "validate:corrupt-out-of-span",
               "validate:corrupt-degenerate", "validate:clean", "validate:error-mode-raises", "samples:on-boundary", "samples:ties",
-              "invert:touching", "invert:empty", "invert:at-bounds", "find:regex", "find:substr", "fuzzy:tie", "requery-after-mutation"):
+              "invert:touching", "invert:empty", "invert:at-bounds", "overlap:all-relations", "find:regex", "find:substr", "fuzzy:tie", "requery-after-mutation"):
         f["classes"]["C15:" + c] = 30
     return f
 
@@ -300,7 +300,7 @@ def _ioc_post(ctx):
     case = {"call": "intervalOverlapCheck", "a": list(a), "b": list(b), "pct": pct, "tt": tt, "incl": incl}
     sig = ("ioc", gen.cmp3(a[0], b[0]), gen.cmp3(a[0], b[1]), gen.cmp3(a[1], b[0]), gen.cmp3(a[1], b[1]), pct > 0, tt > 0, incl, bool(exp))
     if ctx.exc is not None or (not band and bool(ctx.result) != bool(exp)):
-        viol("q.intervalOverlapCheck", "intervalOverlapCheck", case, "gave %s, expected %r" % (desc(ctx.result, ctx.exc), bool(exp)), sig)
+        viol("q.intervalOverlapCheck", "intervalOverlapCheck", case, "intervalOverlapCheck(%r, %r, percentThreshold=%r, timeThreshold=%r, boundaryInclusive=%r) gave %s, expected %r" % (a, b, pct, tt, incl, desc(ctx.result, ctx.exc), bool(exp)), sig)
     else:
         REC.held("q.intervalOverlapCheck", sig, None, case)
 
@@ -635,6 +635,27 @@ def _workload(tier, rng, shard, nshards):
     from praatio.utilities import utils
     from praatio.utilities.constants import Interval, Point
 
+    # every pair of intervals on a 6-point grid (all 13 Allen relations: disjoint, touching, staggered, containing, sharing a start or
+    # an end, identical) x thresholds below, at and above the true overlap / overlap ratio
+    pts = [0.0, 1.0, 2.0, 3.0, 4.0, 6.0]
+    ivs = [(a, b) for a in pts for b in pts if a < b]
+    j = 0
+    for a in ivs:
+        for b in ivs:
+            j += 1
+            if j % nshards != shard:
+                continue
+            ov = min(a[1], b[1]) - max(a[0], b[0])
+            tot = max(a[1], b[1]) - min(a[0], b[0])
+            thr = [(0, 0)]
+            if ov > 0:
+                thr += [(0, ov), (0, ov / 2), (0, ov + 0.5), (0, ov + 1.0), (0, tot), (ov / tot, 0), (ov / tot / 2, 0), (min(1.0, ov / tot + 0.125), 0), (1.0, 0)]
+            else:
+                thr += [(0, 0.5), (0.25, 0)]
+            for pct, tt in thr:
+                for incl in (False, True):
+                    call(utils.intervalOverlapCheck, Interval(a[0], a[1], "x"), Interval(b[0], b[1], "y"), pct, tt, incl)
+            REC.cls("C15:overlap:all-relations")
     n = (2500 if tier == "quick" else 90000) // nshards
     queries = ["a", "b", "c", "ab", "", "A", "[ab]", "^a", "b$", "a|c", ".", "x"]
     for k in range(n):
